@@ -72,6 +72,24 @@ Lemma label_addrem_torn_refuted_l :
     zmem 2 (labels_of (sh c) 0) = false /\ zmem 0 (by_label (sh c) 2) = true.
 Proof. eexists; eexists. vm_compute. repeat split; reflexivity. Qed.
 
+(** create_edge ∥ delete_edge of the edge being created: the edge map already shows the new edge,
+    the deleter finds no adjacency list for the source yet (mark_deleted is a no-op), and the
+    creator then adds the deleted edge to both adjacency lists *)
+Definition g_three_nodes : lpg :=
+  sh (grun (repeat 0%nat 40) (ginit lpg0 [[GCreateNode [1]; GCreateNode [1; 2]; GCreateNode []; GCreateEdge 0 1; GCreateEdge 1 2]])).
+Lemma edge_torn_refuted_l :
+  exists progs sched, progs = [[GCreateEdge 2 0]; [GDeleteEdge 2]] /\ sched = [0; 0; 0; 1; 1; 1; 1; 0; 0]%nat /\
+    k_edge_torn (g_next_edge g_three_nodes) progs = true /\
+    let c := grun sched (ginit g_three_nodes progs) in
+    finished c = true /\ outputs c = [[(GCreateEdge 2 0, OZ 2)]; [(GDeleteEdge 2, OB true)]] /\
+    In (2, 0, 2) (adj_visible (g_fwd (sh c)) (g_fwd_del (sh c))) /\
+    In (0, 2, 2) (adj_visible (g_bwd (sh c)) (g_bwd_del (sh c))) /\
+    ~ In 2 (map (fun x => fst (fst x)) (live_edges (sh c))).
+Proof.
+  eexists; eexists. split; [reflexivity|]. split; [reflexivity|]. split; [vm_compute; reflexivity|].
+  vm_compute. repeat split; try reflexivity; try tauto. intros [H|[H|H]]; try discriminate; auto.
+Qed.
+
 Lemma prop_index_torn_refuted_l :
   exists progs sched, progs = [[PSetProp 0 1]; [PSetProp 0 2]] /\ sched = [0; 1; 0; 0; 0; 1; 1; 1]%nat /\
     k_prop progs = true /\
